@@ -13,7 +13,7 @@ from .. import sim as S
 
 ENGINE_ID = 14
 N = {"quick": 208, "thorough": 4000}
-RULE = ("0..3*dw+1 events, dw in {3,8,16}, alignment 0-3, every trigger mode per source and for the monitor; attached "
+RULE = ("0..3*dw+1 events, dw in {3,8,16}, alignment 0-3 (thorough adds dw in {1,2,5,7,32} and alignment 4-5 on 15% of the cases), every trigger mode per source and for the monitor; attached "
         "directly / through a csr.Decoder (window at a random aligned address) / by wiring.connect() from an initiator "
         "interface; idx%8: 0-3 protocol-following whole-register transactions (write enable, read enable, read pending, "
         "write-one-to-clear) with sources toggling every cycle and triggers forced into the very cycle the clear takes "
@@ -44,11 +44,16 @@ def planned(cfg):
     return size, aw, top_aw
 
 
-def gen_cfg(rnd, kind):
+def gen_cfg(rnd, kind, tier="quick"):
     dw = rnd.choice([3, 8, 8, 16])
     n = rnd.choice([0, 1, 2, dw - 1, dw, dw + 1, 2 * dw, 2 * dw + 1, 3 * dw, 3 * dw + 1,
                     rnd.randint(0, 3 * dw + 1), rnd.randint(0, 3 * dw + 1)])
     al = rnd.choice([0, 0, 0, 1, 2, 3])
+    if tier == "thorough" and rnd.random() < 0.15:
+        # wider sweep: tiny and odd bus widths, larger alignments
+        dw = rnd.choice([1, 2, 5, 7, 32])
+        n = rnd.choice([0, 1, dw, dw + 1, 3 * dw + 1, rnd.randint(0, min(3 * dw + 1, 40))])
+        al = rnd.choice([0, 1, 4, 5])
     r = rnd.random()
     if r < 0.2:
         modes = [rnd.randrange(3)] * n
@@ -200,7 +205,7 @@ def gen_case(seed, tier, idx):
         T = 40
         stim = gen_stim(rnd, cfg, T, "txn") if valid(cfg) else []
     else:
-        cfg = gen_cfg(rnd, kind)
+        cfg = gen_cfg(rnd, kind, tier)
         T = 300 if tier == "quick" else rnd.choice([300, 600])
         stim = gen_stim(rnd, cfg, T, kind)
     return {"engine": "csrevent", "kind": kind, "cfg": cfg, "stim": stim}
